@@ -58,7 +58,7 @@ pub struct UniCfg {
 
 impl Default for UniCfg {
     fn default() -> Self {
-        UniCfg { n_adts: 40, n_builtin_subjects: 40, max_depth: 4, allow_zst_blocks: false, allow_control_flow: true }
+        UniCfg { n_adts: 40, n_builtin_subjects: 40, max_depth: 4, allow_zst_blocks: true, allow_control_flow: true }
     }
 }
 
@@ -189,6 +189,14 @@ impl<'a, 'b> Gen<'a, 'b> {
     }
 
     fn zero_elem(&mut self, depth: usize, leaf: bool) -> Ty {
+        let t = self.zero_elem_raw(depth, leaf);
+        if est_size(self.u, &t) > MAX_ZERO_SIZE {
+            return self.prim(false);
+        }
+        t
+    }
+
+    fn zero_elem_raw(&mut self, depth: usize, leaf: bool) -> Ty {
         let n = if leaf { 1 } else { 8 };
         match self.src.pick(n) {
             0 => self.prim(true),
@@ -508,6 +516,35 @@ impl<'a, 'b> Gen<'a, 'b> {
         def
     }
 }
+
+/// Rough upper estimate of `size_of` of a zero-copy type (keeps generated aggregates from multiplying into
+/// values of hundreds of kilobytes, which overflow thread stacks when passed by value at opt-level 0).
+pub fn est_size(u: &Universe, t: &Ty) -> usize {
+    match t {
+        Ty::Prim(p) => p.size(),
+        Ty::Phantom(_) | Ty::RangeFull => 0,
+        Ty::Array(e, CExpr::Lit(c)) => est_size(u, e) * c.as_usize(),
+        Ty::Array(e, _) => est_size(u, e) * 4,
+        Ty::Tuple(e, n) => est_size(u, e) * n,
+        Ty::Range(_, e) => 2 * est_size(u, e) + 8,
+        Ty::Adt(i, args) => {
+            let d = &u.adts[*i];
+            if !d.is_zero() {
+                return 64;
+            }
+            let mut m = 0;
+            for v in 0..d.n_variants() {
+                let s: usize = d.variant_fields(v).types().iter().map(|f| est_size(u, &f.subst(args)) + 16).sum();
+                m = m.max(s);
+            }
+            m + 64
+        }
+        Ty::Param(_) => 16,
+        _ => 32,
+    }
+}
+
+pub const MAX_ZERO_SIZE: usize = 1536;
 
 /// Whether a zero-copy type has alignment unit 0 or size 0 as a block (O3/O4 class).
 pub fn zst_like(u: &Universe, t: &Ty) -> bool {
